@@ -1411,7 +1411,7 @@ class ILRun:
             loop = asyncio.new_event_loop()
             try:
                 loop.set_default_executor(ex)
-                self.out[i] = dec_dict(loop.run_until_complete(self.guard._evaluate_core_async(*objs)))
+                self.out[i] = dec_dict(loop.run_until_complete(self.guard.evaluate_async(*objs)))
             except Exception as e:  # noqa: BLE001
                 self.out[i] = ["!raise", type(e).__name__, str(e)[:160]]
             finally:
@@ -1461,7 +1461,7 @@ def il_solo(case, i):
     objs = mk_objs(copy.deepcopy(case["requests"][i]))
     loop = asyncio.new_event_loop()
     try:
-        return dec_dict(loop.run_until_complete(g._evaluate_core_async(*objs)))
+        return dec_dict(loop.run_until_complete(g.evaluate_async(*objs)))
     except Exception as e:  # noqa: BLE001
         return ["!raise", type(e).__name__, str(e)[:160]]
     finally:
